@@ -219,7 +219,7 @@ func genAddr(rng *rand.Rand) string {
 	}
 }
 
-var headerNames = []string{"X-Source-Id", "x-source-id", "X-RATE-KEY", "Authorization", "a", "x-forwarded-for", "Cookie", "weird name", "X_Under", "ETag"}
+var headerNames = []string{"X-Source-Id", "x-source-id", "X-RATE-KEY", "Authorization", "a", "x-forwarded-for", "Cookie", "weird name", "X_Under", "ETag", "Host", "host", "Content-Length", "Transfer-Encoding"}
 var hostValues = []string{"example.com", "example.com:8080", "", "[::1]:80", "EXAMPLE.com", "a b", "xn--bcher-kva.example"}
 var headerValues = []string{"alice", "bob", "", "tenant-7", "a, b", " spaced ", "\xc3\xa9", "1"}
 
